@@ -143,20 +143,34 @@ Definition c5_chk_start (s : c5_ostep) : bool :=
 Definition c5_chk_trigev (s : c5_ostep) : bool :=
   forallb (fun d => c5_mem (d_id d) (c5_trig_ids (c5_outs s))) (c5_newly (c5_pre s) (c5_post s)).
 
-(* chained triggers: whatever became triggered in this step has triggered the downtimes chained to it that
-   were untriggered and inside their own window - with the same trigger time when the chained one is flexible *)
+(* chained triggers, every level: whatever became triggered in this step has triggered each downtime chained to it
+   that was untriggered and inside its own window - and that one, being newly triggered itself, its own chained
+   downtimes, and so on.  Outside the start timer all of them carry the same trigger time (one TriggerDowntime(t) call
+   per root; C05_chain proves the same-instant part for every single call, also inside the start timer, where the
+   roots have different instants).  dt_add only triggers the new downtime, to which nothing is chained yet. *)
 Definition c5_chk_chain (s : c5_ostep) : bool :=
-  forallb (fun d' =>
-             forallb (fun cid =>
-                        match find_dt cid (c5_pre s) with
-                        | Some c =>
-                            if (d_trigger c =? 0) && c5_inwin (c5_now s) c then
-                              if d_fixed c then negb (c5_trig_of cid (c5_post s) =? 0)
-                              else c5_trig_of cid (c5_post s) =? d_trigger d'
-                            else true
-                        | None => true
-                        end) (d_triggers d'))
-          (c5_newly (c5_pre s) (c5_post s)).
+  match c5_op s with
+  | OpDtAdd _ _ _ _ _ _ _ _ => true
+  | _ =>
+    forallb (fun d' =>
+               match find_dt (d_id d') (c5_pre s) with
+               | Some x =>
+                   forallb (fun cid =>
+                              match find_dt cid (c5_pre s) with
+                              | Some c =>
+                                  if (d_trigger c =? 0) && c5_inwin (c5_now s) c then
+                                    negb (c5_trig_of cid (c5_post s) =? 0)
+                                    && match c5_op s with
+                                       | OpDtStartTimer => true
+                                       | _ => c5_trig_of cid (c5_post s) =? d_trigger d'
+                                       end
+                                  else true
+                              | None => true
+                              end) (d_triggers x)
+               | None => true
+               end)
+            (c5_newly (c5_pre s) (c5_post s))
+  end.
 
 (* downtime_depth = number of downtimes in effect *)
 Definition c5_chk_depth (s : c5_ostep) : bool :=
@@ -188,7 +202,7 @@ Definition c5_wf_step (prev_now : Z) (s : c5_ostep) : bool :=
   (prev_now <=? c5_now s) && (0 <? c5_now s) && c5_in_scope (c5_op s) &&
   match c5_op s with
   | OpResult r => (0 <? r_end r) && (r_end r <=? c5_now s)
-  | OpDtAdd id _ _ _ _ _ _ _ => negb (c5_has id (c5_pre s)) && negb (id =? 0)
+  | OpDtAdd id _ _ _ _ trig_by _ _ => negb (c5_has id (c5_pre s)) && (negb (id =? 0) && negb (trig_by =? id))
   | _ => true
   end.
 
@@ -204,12 +218,30 @@ Definition c5_chained_fixed (ds : list dt) : bool :=
   existsb (fun p => existsb (fun cid => match find_dt cid ds with Some c => d_fixed c | None => false end)
                             (d_triggers p)) ds.
 Definition c5_sig_loststart (k : kind) (s : c5_ostep) : bool :=
-  c5_chained_fixed (c5_pre s) ||
   match c5_op s with
   | OpResult r =>
-      negb (is_ok k (r_state r))
-      && existsb (fun d => d_fixed d && (d_trigger d =? 0) && c5_inwin (c5_now s) d) (c5_pre s)
-  | OpDtAdd _ fixed _ _ _ trig_by _ _ => fixed && negb (trig_by =? 0)
+      c5_chained_fixed (c5_pre s) ||
+      (negb (is_ok k (r_state r))
+       && existsb (fun d => d_fixed d && (d_trigger d =? 0) && c5_inwin (c5_now s) d) (c5_pre s))
+  | OpDtStartTimer => c5_chained_fixed (c5_pre s)
+  | _ => false
+  end.
+
+(* ... and what the miscount of that finding looks like, so that any other DowntimeStart miscount is reported:
+   DowntimeStart requests are MISSING, exactly one per fixed downtime that became triggered by a non-OK result,
+   at most one per fixed chained downtime that became triggered in a start-timer run *)
+Definition c5_chained_in (id : Z) (ds : list dt) : bool := existsb (fun p => c5_mem id (d_triggers p)) ds.
+Definition c5_loststart_shape (s : c5_ostep) : bool :=
+  let newly := c5_newly (c5_pre s) (c5_post s) in
+  let n := Z.of_nat (length newly) in
+  let cnt := c5_cnt c5_is_start (c5_outs s) in
+  negb (c5_paused s) &&
+  match c5_op s with
+  | OpResult _ =>
+      let lost := Z.of_nat (length (filter d_fixed newly)) in (0 <? lost) && (n - cnt =? lost)
+  | OpDtStartTimer =>
+      let lost := Z.of_nat (length (filter (fun d' => d_fixed d' && c5_chained_in (d_id d') (c5_pre s)) newly)) in
+      (cnt <? n) && (n - cnt <=? lost)
   | _ => false
   end.
 
@@ -239,7 +271,7 @@ Fixpoint c5_model_trace (c : fcfg) (f : full) (h : list (Z * op)) : list c5_oste
 (* which recorded finding explains a failing check (0 = none): 2 lost-start
    (1 was pending-flexible, 3 was start-at-end-instant; both fixed) *)
 Definition c5_explained (k : kind) (s : c5_ostep) (n : Z) : Z :=
-  if (n =? 9) && c5_sig_loststart k s then 2
+  if (n =? 9) && c5_sig_loststart k s && c5_loststart_shape s then 2
   else 0.
 
 (* ---- the oracle: every failing (step index, check number, explaining finding); [] = the trace
